@@ -20,9 +20,10 @@ Grouping == LET flat == V(<<"x1", o1, "x2", o2, "x3">>)
 UnaryScope == /\ V(<<"MINUS", "x1", o1, "x2">>).v = V(<<"LP", "MINUS", "x1", "RP", o1, "x2">>).v
               /\ V(<<"MINUS", "x4", "PCT">>).v = V(<<"MINUS", "LP", "x4", "PCT", "RP">>).v
               /\ V(<<"x2", o1, "MINUS", "x4">>).v = V(<<"x2", o1, "LP", "MINUS", "x4", "RP">>).v
-\* blank = 0 in arithmetic and numeric comparison
+\* blank = 0 in arithmetic and in a comparison with a number (against a truth value - the result of another comparison - a blank
+\* is FALSE, against a text it is the empty text: XCmp)
 Zeroed == [x \in DOMAIN Env |-> IF Env[x].k = "blank" THEN IntV(0) ELSE Env[x]]
-BlankIsZero == (o1 # "AMP" /\ o2 # "AMP") => Ideal(<<"x1", o1, "x2", o2, "x3">>, Env).v = Ideal(<<"x1", o1, "x2", o2, "x3">>, Zeroed).v
+BlankIsZero == (o1 # "AMP" /\ o2 # "AMP" /\ ~(o1 \in CmpOps /\ o2 \in CmpOps)) => Ideal(<<"x1", o1, "x2", o2, "x3">>, Env).v = Ideal(<<"x1", o1, "x2", o2, "x3">>, Zeroed).v
 \* the guards of the findings are syntactic: insensitive to the valuation, empty for pure arithmetic
 GuardsSyntactic == (o1 \in ArOps /\ o2 \in ArOps) => Guards(<<"x1", o1, "x2", o2, "x3">>) = {}
 =============================================================================
